@@ -480,6 +480,7 @@ ssize_t read(int fd, void *buf, size_t len) {
     case SFD_FILE: {
       siminode *n = &W.ino[f->ino];
       if (n->type == SI_DIR) FAIL(EISDIR);
+      if ((f->flags & O_ACCMODE) == O_WRONLY) FAIL(EBADF);      /* as the kernel does (simcheck) */
       size_t av = (size_t)f->off < n->cur.n ? n->cur.n - f->off : 0;
       r = av < len ? av : len; if (r) memcpy(buf, n->cur.p + f->off, r); f->off += r; n->atime = W.clock;
       break; }
@@ -528,6 +529,7 @@ ssize_t write(int fd, const void *buf, size_t len) {
   switch (f->kind) {
     case SFD_FILE: {
       siminode *n = &W.ino[f->ino];
+      if ((f->flags & O_ACCMODE) == O_RDONLY) { sim_tr("P%d #%d write %d -> -1 e%d\n", p->idx, p->ncalls, fd, EBADF); FAIL(EBADF); }   /* as the kernel does (simcheck) */
       if (f->flags & O_APPEND) f->off = n->cur.n;
       if ((size_t)f->off + wlen <= n->cur.n) { if (wlen == 1) { if (n->dirty < 1) n->dirty = 1; } else n->dirty = 2; memcpy(n->cur.p + f->off, buf, wlen); }
       else {
@@ -576,6 +578,7 @@ int ftruncate(int fd, off_t len) {
   GATE("ftruncate");
   if (faulted) { sim_tr("P%d #%d ftruncate %d -> -1 e%d FAULT\n", p->idx, p->ncalls, fd, ferr == -1 ? EIO : ferr); FAIL(ferr == -1 ? EIO : ferr); }
   siminode *n = &W.ino[f->ino];
+  if ((f->flags & O_ACCMODE) == O_RDONLY) { sim_tr("P%d #%d ftruncate %d -> -1 e%d\n", p->idx, p->ncalls, fd, EINVAL); FAIL(EINVAL); }   /* as the kernel does (simcheck) */
   if ((size_t)len < n->cur.n) { n->cur.n = len; n->dirty = 2; }
   while (n->cur.n < (size_t)len) { hbuf_add(&n->cur, "\0", 1); n->dirty = 2; }
   n->mtime = W.clock;
@@ -626,6 +629,8 @@ int rename(const char *a, const char *b) {
   int di = dent_index(pa);
   if (di < 0 || !parent_is_dir(pb)) { sim_tr("P%d #%d rename %s %s -> -1 e%d\n", p->idx, p->ncalls, rel(pa), rel(pb), ENOENT); FAIL(ENOENT); }
   int dj = dent_index(pb);
+  if (dj >= 0 && W.dent[dj].ino == W.dent[di].ino) {          /* POSIX: old and new name the same file: nothing happens (simcheck) */
+    sim_tr("P%d #%d rename %s %s -> 0\n", p->idx, p->ncalls, rel(pa), rel(pb)); return 0; }
   if (dj >= 0) { int o = W.dent[dj].ino; W.dent[dj].ino = -1; W.ino[o].nlink--; ino_maybe_free(o); }
   snprintf(W.dent[di].path, sizeof W.dent[di].path, "%s", pb);
   sim_tr("P%d #%d rename %s %s -> 0\n", p->idx, p->ncalls, rel(pa), rel(pb));
